@@ -254,7 +254,12 @@ def run_case(ctx, case, rng):
             # with the cube of the sentence length
             ntok = len(gen.tokens_of(case['spec']['root']))
             with probe.step_budget(STEPS * max(1, ntok // 20) ** 3):
+                looks = dict(case.get('look') or [])
                 for i, (step, params) in enumerate(case['seq']):
+                    if i in looks or str(i) in looks:
+                        from . import pipeline
+                        pipeline.look(ctx.R, looks.get(i, looks.get(str(i))),
+                                      live)
                     Cur.step = '%d:%s%s' % (i + 1, step, params or '')
                     live = getattr(tr, step)(live, **params)
                     if live is None:
@@ -311,6 +316,12 @@ def shard(ctx):
         rng = ctx.rng('seq', i)
         case = {'kind': 'seq', 'spec': make_tree(rng),
                 'seq': draw_sequence(rng, maxlen)}
+        from . import pipeline
+        looks = pipeline.draw_looks(rng, case['seq'], 0.25)
+        if looks:
+            case['look'] = looks
+            ctx.stratum('tree looked at between the steps (written, numbered, '
+                        'analysed, navigated)')
         run_case(ctx, case, rng)
         if i < 4:
             ctx.sample({'tree': model.show(model.from_spec(
